@@ -118,9 +118,16 @@ def history_check():
         prev = {}
         for (n, c) in order:
             K = len(fresh[(n, c)])
-            for cid in sorted(set([0, 1, K // 2, K - 1])):
+            for cid in (range(K) if K <= 100 else sorted(set([0, 1, K // 2, K - 1] + list(range(2, K, 37))))):
                 info = cl.stabilizer_circuit_lookup(n, c, cid)
                 f = fresh[(n, c)][cid]
+                try:
+                    parsed = ztab.gates_of(info.parse_circuit())
+                except Exception as e:
+                    parsed = repr(e)
+                if parsed != f["gates"]:
+                    out.append(dict(n=n, first=prev.get(n), second=c, id=cid, parsed=True,
+                                    what="parse_circuit() of entry (%d,%s,%d) after reading %s yields %s..., a fresh interpreter yields %s..." % (n, c, cid, prev.get(n), str(parsed)[:60], str(f["gates"])[:60])))
                 if (info.graph_id, info.cost, info.depth, info.circuit_string) != (f["graph_id"], f["cost"], f["depth"], f["text"]):
                     out.append(dict(n=n, first=prev.get(n), second=c, id=cid,
                                     what="lookup(%d,%s,%d) after reading %s returns %r, a fresh interpreter returns %r" % (n, c, cid, prev.get(n), info.circuit_string[:40], f["text"][:40])))
@@ -134,8 +141,19 @@ def replay_history(case):
     from htstabilizer import circuit_lookup as cl
     n, first, second, cid = case["n"], case["first"], case["second"], case["id"]
     if first is not None:
-        cl.stabilizer_circuit_lookup(n, first, 0)
+        k = 0
+        while True:      # read (and parse) the whole first table, as a user working with that connectivity would
+            try:
+                cl.stabilizer_circuit_lookup(n, first, k).parse_circuit()
+            except IndexError:
+                break
+            k += 1
     info = cl.stabilizer_circuit_lookup(n, second, cid)
+    if case.get("parsed"):
+        from . import dense
+        toks, errs = tokenize([l for l in raw_lines("stabilizer%d-%s.txt" % (n, second)) if l][cid].split(":")[3])
+        got_g = dense.gates_of(info.parse_circuit())
+        return [(g, list(q)) for g, q in got_g] != [(g, list(q)) for g, q in toks], "after working with %s-%s, parse_circuit() of entry %d of %s-%s yields %s..., the file line says %s..." % (n, first, cid, n, second, got_g[:4], toks[:4])
     raw = [l for l in raw_lines("stabilizer%d-%s.txt" % (n, second)) if l][cid]
     got = "%d:%d:%d:%s" % (info.graph_id, info.cost, info.depth, info.circuit_string)
     return got != raw, "after a lookup in %s-%s the entry %d of %s-%s is %r but the file says %r" % (n, first, cid, n, second, got[:50], raw[:50])
